@@ -22,6 +22,13 @@ CHECKS = {
               'reference multiset (List as multiset, Set as set, ties as one-of). A mismatch is reported unless it is fully explained by '
               'a deviation switch that corresponds to an open entry of known_findings.json.'),
         note='trusted: reference evaluator (DESIGN 4.21); zero-key aggregation over no solution is not judged'),
+    'C07': dict(
+        category='exploration', design_ref='DESIGN.md 4/C07',
+        technique='runtime monitor: metamorphic comparison of a program and its permuted / renamed variants on the real pipeline + SQLite, admissible differences taken from the reference evaluator',
+        text=('Generated programs and their variants (permuted rules/facts/conjuncts/disjuncts, variables renamed from colliding pools, '
+              'predicates renamed) are both executed on SQLite through the real pipeline; rows must be equal as multisets keyed by column '
+              'name, only List element order and tie choices being admitted. Fact permutation permutes the arrival order at aggregate UDFs.'),
+        note='trusted: the reference evaluator only for which columns are List-like / tied'),
     'C14': dict(
         category='exploration', design_ref='DESIGN.md 4/C14',
         technique='runtime trace monitor: start events recorded at the sql_runner boundary checked offline against a trace specification; icontract post-conditions on the scheduler state; stop-signal fault injection',
